@@ -65,6 +65,14 @@ class C15(PureCheck):
                     for w in (0, n, n + 1, n + 2, n + 5):
                         yield {"op": "just", "f": f, "side": side, "w": w, "fill": 0}
                         yield {"op": "just", "f": f, "side": side, "w": w, "fill": 42}
+        # join (natively implemented): items that are str, FmtStr, FmtStr without any run - leading, in the middle, last
+        Z = {"k": "f", "v": []}
+        A = {"k": "s", "v": [[[97], [0] * 8]]}
+        B = {"k": "f", "v": [[[98, 98], list(ATTS[1])]]}
+        E = {"k": "s", "v": [[[], [0] * 8]]}
+        for sep in ([[[44, 32], list(ATTS[0])]], [[[45], list(ATTS[2])]], [], [[[], list(ATTS[1])]]):
+            for items in ([Z, A], [Z, Z, B, A], [A, Z, B], [A, B, Z], [Z], [Z, Z], [E, A], [A, E], [B, A, B], []):
+                yield {"op": "join", "sep": sep, "items": items}
         for f in pool:
             n = fmtlib.vlen(f)
             for sep in SEPS:
@@ -81,6 +89,8 @@ class C15(PureCheck):
                 yield {"op": "delegated", "f": f, "m": m, "argi": k}
 
     def execute(self, inp):
+        if inp["op"] == "join":
+            return fmtlib.exec_op(inp)
         ev = dict(inp)
         f = enc.build_fmtstr(inp["f"])
         text = "".join(chr(c) for t, _ in inp["f"] for c in t)
@@ -132,6 +142,8 @@ class C15(PureCheck):
         return ev
 
     def classify(self, ev):
+        if ev["op"] == "join":
+            return ("join", str(ev["sep"]), str(ev["items"]))
         f = ev["f"]
         if len(f) < 2 and not any(any(a) for _, a in f):
             return None
@@ -140,6 +152,8 @@ class C15(PureCheck):
 
     def case_class(self, ev, v):
         op = ev["op"]
+        if op == "join":
+            return "join"
         f = ev["f"]
         text = "".join(chr(c) for t, _ in f for c in t)
         if op == "splitlines":
